@@ -69,6 +69,23 @@ def main():
 
     from vf import build
 
+    if job.get("decoy"):
+        # another definition of a different shape (other sensors, no calibration and/or no control) is
+        # generated first in this interpreter: nothing of it may show in the definition under test
+        db = build.Built(job["decoy"], attach=False)
+        dg = cpp._generate_ekf_function_bodies(
+            header_location="generated/decoy.h", namespace="decoy", state_model=db.ui_model,
+            process_noise=db.process_noise, sensor_models=db.sensor_models, sensor_noises=db.sensor_noises,
+            calibration_map=db.calibration_map, config={"common_subexpression_elimination": not job["cse"]})
+        "\n".join(cpp.header_from_ast(generator=dg))
+        "\n".join(cpp.source_from_ast(generator=dg))
+        dm = cpp._generate_model_function_bodies(
+            header_location="generated/decoy.h", namespace="decoy", symbolic_model=db.ui_model,
+            calibration_map=db.calibration_map, config={"common_subexpression_elimination": not job["cse"]})
+        "\n".join(cpp.header_from_ast(generator=dm))
+        "\n".join(cpp.source_from_ast(generator=dm))
+        python.compile_ekf(db.ui_model, db.process_noise, db.sensor_models, db.sensor_noises,
+                           db.calibration_map or None, config={"common_subexpression_elimination": not job["cse"]})
     defn = permute(job["defn"], job["perm_seed"], job["containers"])
     res = {"hashseed": os.environ.get("PYTHONHASHSEED"), "canonical": sha(json.dumps(canonical(defn), sort_keys=True))}
     b = build.Built(defn, attach=False)
